@@ -261,6 +261,87 @@ USER_FEA = [
 ]
 
 
+def tables_level(ctx):
+    """Fea/Tables.v against the code on generated feature files with several table blocks (head / hhea / GDEF in any number and
+    order, each GDEF block with any of glyph classes, carets by position / by index, attachment points): ast.findTable, the
+    GDEF writer's todo set (the user's table over ALL its blocks) and ast.getGDEFGlyphClasses (which definition is found)"""
+    from fontTools.feaLib.parser import Parser
+    from ufo2ft.featureWriters import GdefFeatureWriter
+    from ufo2ft.featureWriters import ast as uast
+    rng = ctx.subrng("tables")
+    gnames = ["a", "b", "c", "d", "f_i", "acutecomb"]
+    glyphs = [{"name": n, "unicodes": [0x61 + k] if n != "f_i" else [], "width": 500, "contours": [], "components": [],
+               "anchors": [("caret_1", Fr(200), Fr(0))] if n == "f_i" else []} for k, n in enumerate(gnames)]
+    cases, meta = [], []
+    for i in range(ctx.budget(60, 300)):
+        items, fea = [], ""
+        nclass = 0
+        for k in range(rng.randint(0, 5) if i % 10 else 0):
+            kind = rng.choice(["GDEF", "GDEF", "GDEF", "head", "hhea", "other"])
+            if kind == "other":
+                fea += "@cls%d = [a b];\n" % k
+                items.append("TOther")
+            elif kind == "head":
+                fea += "table head {\n    FontRevision 1.%d00;\n} head;\n" % (k + 1)
+                items.append("(TBlock %s [])" % G.s("head"))
+            elif kind == "hhea":
+                fea += "table hhea {\n    CaretOffset %d;\n} hhea;\n" % k
+                items.append("(TBlock %s [])" % G.s("hhea"))
+            else:
+                body, terms = "", []
+                for st in rng.sample(["class", "pos", "index", "attach"], rng.randint(0, 3)):
+                    if st == "class" and nclass < 4:
+                        # (every definition names another base glyph: which one was found is visible in the result)
+                        body += "    GlyphClassDef [%s], [f_i], [acutecomb], ;\n" % gnames[nclass]
+                        terms.append("(TClassDef %d)" % nclass); nclass += 1
+                    elif st == "pos":
+                        body += "    LigatureCaretByPos f_i 222;\n"; terms.append("(TStmt GCaretByPos)")
+                    elif st == "index":
+                        body += "    LigatureCaretByIndex f_i 2;\n"; terms.append("(TStmt GCaretByIndex)")
+                    elif st == "attach":
+                        body += "    Attach a 1;\n"; terms.append("(TStmt GAttach)")
+                fea += "table GDEF {\n" + body + "} GDEF;\n"
+                items.append("(TBlock %s %s)" % (G.s("GDEF"), G.lst(terms, "tstmt")))
+        has_cat, has_caret = i % 2 == 0, (i // 2) % 2 == 0
+        desc = {"glyphs": [dict(g, anchors=g["anchors"] if has_caret else []) for g in glyphs], "features": fea,
+                "lib": {"public.openTypeCategories": {"a": "base", "acutecomb": "mark", "f_i": "ligature"}} if has_cat else {}}
+        case = {"features": fea, "has_categories": has_cat, "has_caret_anchors": has_caret}
+        ctx.count(); ctx.klass("tables: %d GDEF block(s)" % min(fea.count("table GDEF"), 3))
+        if fea.count("table GDEF") > 1:
+            ctx.nontriv(("tables", i, ctx.scale))
+        try:
+            ff = Parser(io.StringIO(fea), glyphNames=gnames).parse()
+            ft = {}
+            for tag in ("GDEF", "head", "hhea"):
+                tb = uast.findTable(ff, tag)
+                ft[tag] = None if tb is None else [type(x).__name__ for x in tb.statements if not isinstance(x, uast.Comment)]
+            gc = uast.getGDEFGlyphClasses(ff)
+            found = None if gc.base is None else gnames.index(sorted(gc.base)[0])
+            c = GdefFeatureWriter().setContext(build_font(desc), ff)
+            todo = (1 if "GlyphClassDefs" in c.todo else 0) + (2 if "LigatureCarets" in c.todo else 0)
+        except Exception as e:
+            ctx.spec_failure(case, "raised %s: %s\n%s" % (type(e).__name__, e, traceback.format_exc()[-800:]))
+            continue
+        lens = "(%s, %s, %s)" % tuple(G.opt(None if ft[t] is None else G.z(len(ft[t])), "Z") for t in ("GDEF", "head", "hhea"))
+        cases.append("(%s, (%s, %s), (%s, %s, %s))" % (G.lst(items, "top"), G.b(has_cat), G.b(has_caret), lens,
+                                                       G.opt(None if found is None else G.z(found), "Z"), G.z(todo)))
+        meta.append(dict(case, findTable=ft, glyph_class_def_found=found, todo_code=todo))
+    vals = ctx.coq_eval(
+        "From U2F Require Import Base.Prelude Fea.GdefTodo Fea.Tables.",
+        "fun c : (list top * (bool * bool) * ((option Z * option Z * option Z) * option Z * Z)) => "
+        "let '(l, (hc, hk), ((fg, fh, fa), found, todo)) := c in "
+        "let len := fun t => option_map (fun b => Z.of_nat (length b)) (find_table t l) in "
+        "let oz := fun a b => match a, b with Some x, Some y => Z.eqb x y | None, None => true | _, _ => false end in "
+        "let has := fun t => option_map (fun _ => 1%Z) (find_table t l) in "
+        "if oz (len GDEF) fg && oz (has [104;101;97;100]%Z) (option_map (fun _ => 1%Z) fh) && oz (has [104;104;101;97]%Z) (option_map (fun _ => 1%Z) fa) "
+        "&& oz (gdef_classes l) found && Z.eqb (todo_code (gdef_todo_of (user_gdef l) hc hk)) todo then 3 else 2",
+        cases, chunk=100, tag="Tables")
+    for v, case in zip(vals, meta):
+        if v is not None and v != 3:
+            ctx.corr_mismatch(case, "Gallina find_table / gdef_classes / gdef_todo_of (user_gdef ...) (Fea/Tables.v) differ from "
+                                    "findTable / getGDEFGlyphClasses / GdefFeatureWriter.setContext")
+
+
 def handwritten_features_section(ctx):
     """for EVERY feature the default writers can generate (kern, mark, mkmk, curs) on a font that gives each of them work: a
     hand-written block of that feature without the marker (or with a mis-cased one) stays the only block of that feature and
@@ -524,6 +605,7 @@ def compile_level(ctx):
                     ctx.spec_failure(case, "marker in the middle but the rules after it precede the generated kern")
     indic_level(ctx)
     gdef_todo_level(ctx)
+    tables_level(ctx)
     handwritten_features_section(ctx)
     # GSUB writers run first
     from ufo2ft.featureCompiler import FeatureCompiler
